@@ -100,7 +100,9 @@ ALL = {
              'segment) must fail with an error naming the element; on every case validate() leaves to_er7() unchanged, is '
              'deterministic, is_valid == no errors, the raising form raises errors[0], the report file lists exactly the errors '
              'and warnings (report given as a stream and as a path, read while the raised error is alive). Quick: ~300 segments and 36 '
-             'structures; thorough: all segments, 172 structures. A choice group is instantiated by one alternative.',
+             'structures; thorough: all segments, 172 structures. A choice group is instantiated by one alternative. History: for 351 '
+             '(structure, synthesised profile) cases x both orders, a validation against the standard tables and one against the profile '
+             'in one forked process give what each gives alone in a fresh process.',
         note='Builder values are one token per base datatype; structures outside the slice are outside the claim.',
         ref='DESIGN.md §3 C04'),
     'C05': dict(
